@@ -1,0 +1,24 @@
+//go:build verif
+
+package uasc
+
+import "sync/atomic"
+
+// VerifPointFunc, when set, is called at the scheduling points of the send,
+// renew, open and dispatch paths with the name of the point. It lets the
+// verification harness in /verif decide which goroutine runs next.
+var verifPointFunc atomic.Value // func(string)
+
+// VerifSetPointFunc installs (or with nil removes) the scheduling point callback.
+func VerifSetPointFunc(f func(name string)) {
+	if f == nil {
+		f = func(string) {}
+	}
+	verifPointFunc.Store(f)
+}
+
+func verifPoint(name string) {
+	if f, ok := verifPointFunc.Load().(func(string)); ok && f != nil {
+		f(name)
+	}
+}
